@@ -3,7 +3,8 @@
 Three models are driven: the model of the `zone` label and of the objects (command prog: programs of statements over a store of
 ObsTime objects, run on real objects and in Lean; what Z1-Z13 are about), and the two models of the conversions: the integer model (commands read/abs/cmp/add; what T1-T6 are about) and the generic model
 of the float path instantiated at IEEE doubles (readf/absf/rtf/addf/cmpf/subf; what T7-T14 are about in exact
-arithmetic). The correspondence with the float-path model and with the program model (itself at IEEE doubles) is exact (fields and
+arithmetic); and the model of what may stand on the other side of a comparison operator (cmpo; O1-O2: a timestamp of any
+class derived from ObsTime, or an object that is not a timestamp). The correspondence with the float-path model and with the program model (itself at IEEE doubles) is exact (fields and
 bit patterns); the integer model is compared up to the documented "one millisecond low" of the float code. The oracle (`spec`) uses only the calendar of the
 standard library and exact rationals."""
 import calendar, datetime, math
@@ -31,6 +32,15 @@ def wellformed(f):
     y, mo, d, h, mi, s, ms = map(int, f)
     return (1 <= mo <= 12 and 1 <= d <= mdays(y, mo) and 0 <= h <= 23 and 0 <= mi <= 59
             and 0 <= s <= 59 and 0 <= ms <= 999)
+
+
+def in_domain(f):
+    """a stamp the statement speaks about when it is an OPERAND: well formed and not before 1970-01-01 ("seconds since 1970";
+    the quantifier enumerates the days from 1970-01-01 on). A well-formed stamp of an earlier year is not judged as an operand,
+    whatever the code makes of it (this tree: toAbsTime() counts it as a day of 1970; a tree that handles it correctly is
+    not judged either). RESULTS are only asked to be well formed and at the right instant, and only when that instant is
+    not before 1970."""
+    return wellformed(f) and int(f[0]) >= 1970
 
 
 def oracle_ms(f):
@@ -83,6 +93,23 @@ def prog_layout(ops):
                 return None
             out.append((n, 0))
     return out
+
+
+CLASS_NAMES = ["ObsTime", "IsoTime(ObsTime), which only adds a method iso() and a __repr__", "TaggedTime(ObsTime), which only adds a method and a class attribute"]
+
+
+def prog_classes(ops):
+    """index into P.CLASSES of the class of every object of a program: what `new` was asked for, what copy() copies;
+    every other call returns a plain ObsTime"""
+    cl = []
+    for op, (a, c) in zip(ops, prog_layout(ops) or []):
+        if op[0] == "new":
+            cl.append(op[3] if len(op) > 3 else 0)
+        elif op[0] == "copy":
+            cl.append(cl[op[1]])
+        else:
+            cl += [0] * c
+    return cl
 
 
 def prog_without(ops, k):
@@ -166,6 +193,8 @@ class P(Prop):
         ("TracklibVerif.Props.C03", "TV.C03.run_frame", "objects, whole programs: a program without attribute assignments and without Track.setTimeZone leaves every object that existed before it exactly as it was"),
         ("TracklibVerif.Props.C03", "TV.C03.read_again", "readUnixTime(x) after any program run on its earlier result (attribute assignments included) gives the same stamp again"),
         ("TracklibVerif.Props.C03", "TV.C03.printZone_inj", "printZone() is Z exactly for zone 0 and distinct zones -24..+24 print differently"),
+        ("TracklibVerif.Props.C03", "TV.C03.cmpO_inst", "operands of any class (ObsTime or a class derived from it, on either side): < > == <= >= != on well-formed stamps are the order of the epoch milliseconds; no class is read"),
+        ("TracklibVerif.Props.C03", "TV.C03.cmpO_other", "an operand that is not a timestamp: == False, != True, the four order operators raise AttributeError, whatever the stamp"),
     ]
     partial = []
     open_statements = ["IEEE rounding is outside the theorems (ordered field, exact int()): the two roundings of toAbsTime() (ms/1000.0 and the sum) make a stamp with a non-zero "
@@ -173,7 +202,9 @@ class P(Prop):
                        "property's millisecond and are covered by the bit-exact correspondence of the same definitions instantiated at Float, not by a theorem",
                        "object identity is a statement about the interpreter of programs (every call that returns a stamp appends a new object): that the Python calls behave like that "
                        "interpreter is the correspondence of the `prog` stream (outputs, final state of every object, `is`), not a theorem about CPython",
-                       "convertToZone / Track.convertToTimeZone / Track.addSeconds theorems are for exact arithmetic and targets not before 1970; before 1970 (negative fields) and IEEE rounding: correspondence at Float only. "
+                       "convertToZone / Track.convertToTimeZone / Track.addSeconds theorems are for exact arithmetic and targets not before 1970; before 1970 and IEEE rounding: correspondence at Float only. "
+                       "Before 1970 is outside the statement (seconds since 1970): this tree returns negative fields for a negative number of seconds and counts a year before 1970 as 1970 in toAbsTime(); "
+                       "the models mirror that, no theorem and no oracle clause speaks about it (a tree that handled such dates correctly would only break the correspondence). "
                        "TrackCollection.convertToTimeZone (calls Track.convertToZone, which does not exist) and Track.roundTimestamps (calls ObsTime.round, which does not exist) raise AttributeError on every input: not modelled, not generated"]
     modelled = ("tracklib/core/obs_time.py: ObsTime.readUnixTime on a float argument, operation for operation (readUnixG: year loop on `elapsed - sec` with the integer accumulator, "
                 "month loop, int(e/86400), int(e/3600), int(e/60), int(e), ms = int(frac*1000)) and on integers (readUnixSec/readUnixMs); toAbsTime (integer `seconds`, then "
@@ -183,13 +214,21 @@ class P(Prop):
                 "format is put back), getDayOfWeek, copy, attribute assignment; core/track.py Track.setTimeZone / getTimeZone / convertToTimeZone / addSeconds on a track that "
                 "refers to the timestamp objects themselves; programs of such statements over a store in which every call that returns a stamp appends a new object "
                 "(driver command `prog`; the harness compares every output, the final state of every object, which objects are identical, which objects the track holds). "
+                "The operand handling of the comparison operators (Model/ObsTimeOperand.lean, driver command `cmpo`): the isinstance guard of __eq__ (any class derived from ObsTime "
+                "passes; None, numbers, strings, tuples of fields do not), __ne__ = not (time == self) with the operands changing sides, the AttributeError of < > <= >= on a non-timestamp. "
                 "The string constructor / readTimestamp / __str__ are the C13 model (driver command C13.time), used here for the `ctor` stream")
     rule = ("programs of 3-20 statements on real objects (new with a zone label, readUnixTime of int / float / numpy scalars, addSec..addDay, convertToZone, copy, round trip, "
             "attribute assignments that keep a stamp well formed, toAbsTime, the six comparisons, -, printZone, timeWithZone, getDayOfWeek, Track(...) on existing timestamp objects, "
             "getTimeZone, setTimeZone, convertToTimeZone, addSeconds): a few seconds values, amounts and zones are drawn per program and used again and again, so the same conversion is "
             "asked for before and after its earlier result was modified; half of the programs start from a template (same value read twice around a modification, same offset twice, "
             "a zone conversion between two reads of the instant it lands on, a zone-labelled stamp through round trip/offset/order, a track labelled-shifted-converted, there-and-back); "
-            "every statement is judged by the oracle on the state its operands had when it ran; assignments are undone at the end of the case. convertToZone for every ordered pair of zones "
+            "every statement is judged by the oracle on the state its operands had when it ran; assignments are undone at the end of the case. "
+            "A quarter of the stamps a program constructs (and a fifth of those of the day/add/addf/seq streams, half of the cmp pairs) are instances of one of two user classes derived from ObsTime "
+            "(each only adds a method; one also a __repr__): timestamps like any other, alone and mixed with plain ObsTime objects; a template compares such a stamp with its round trip, its copy, "
+            "a plain stamp of the same instant and what addSec(k) gives with the stamp written down for that instant. `eqx`: the six operators (both operand orders for == and !=) "
+            "between stamps of all pairs of classes, and between a stamp and an object that is not a timestamp (None, its seconds as int/float, its printed form, tuple/list/dict of its fields, object()): "
+            "correspondence only for the latter. Domain of the oracle: an OPERAND is judged when it is well formed and not before 1970-01-01; a RESULT is judged (well formed, right instant) when the instant "
+            "asked for is not before 1970 - readUnixTime(x<0), offsets and zone changes leading before 1970, and whatever is then done with their results, are correspondence only. convertToZone for every ordered pair of zones "
             "-12..+14 on four boundary stamps. A third of the stamps of the day/cmp/add/addf/seq streams carry a zone label -12..+14 (ObsTime(..., zone=z)). "
             "days enumerated from 1970-01-01 (all days to 2099 in thorough; the boundary days of every year in quick) x 4 intra-day instants; "
             "whole boundary days second by second; century years 2100..2400; ordered pairs one unit apart in each field; offsets crossing day/month/year; "
@@ -205,6 +244,24 @@ class P(Prop):
         from tracklib.core import Obs, ENUCoords, Track
         self.T = ObsTime
         self.Obs, self.ENU, self.Track = Obs, ENUCoords, Track
+
+        # user classes derived from ObsTime: what a program that wants another printed form, or a helper method, writes.
+        # Their instances are timestamps like any other (same fields, same toAbsTime()): every sentence of the statement
+        # applies to them, alone and mixed with plain ObsTime objects.
+        # (no __str__ override: timeWithZone() prints through str(self), which is modelled for ObsTime.__str__)
+        class IsoTime(ObsTime):
+            def iso(self):
+                return "%04d-%02d-%02dT%02d:%02d:%02d.%03d" % (self.year, self.month, self.day, self.hour, self.min, self.sec, self.ms)
+
+            def __repr__(self):
+                return "IsoTime(%s)" % self.iso()
+
+        class TaggedTime(ObsTime):
+            tag = "gps"
+
+            def julian(self):
+                return self.toAbsTime() / 86400.0 + 2440587.5
+        self.CLASSES = [ObsTime, IsoTime, TaggedTime]
 
     # ---------------------------------------------------------------- generators
     def exhaustive_scopes(self, tier):
@@ -351,8 +408,11 @@ class P(Prop):
         def new():
             f = self.rand_stamp(rng)
             f[6] = 0 if rng.random() < 0.6 else f[6]
-            return ["new", f, rng.choice([0, rng.choice(zones)])]
-        t = rng.randrange(8)
+            op = ["new", f, rng.choice([0, rng.choice(zones)])]
+            if rng.random() < 0.25:
+                op.append(rng.choice([1, 2]))    # an instance of a class derived from ObsTime
+            return op
+        t = rng.randrange(9)
         if t == 0:      # the same value converted again after its first result was modified
             ops = [self.rand_read(rng, pool[:1])] + self.rand_set(rng, 0) + [self.rand_read(rng, pool[:1])]
         elif t == 1:    # the same offset applied again after its first result was modified
@@ -369,13 +429,22 @@ class P(Prop):
                    ["tget"], ["tconv", zones[1]]]
         elif t == 5:    # conversion to a zone and back
             ops = [["new", self.rand_stamp(rng), zones[0]], ["conv", 0, zones[1]], ["conv", 1, zones[0]], ["cmp", 0, 2], ["tz", 1]]
+        elif t == 6:    # a stamp of a derived class against plain ones at the same instant: its round trip, its copy, what an
+            # offset of whole seconds gives against the stamp written down for that instant (an instance of any of the classes)
+            f = self.rand_stamp(rng)
+            f[6] = 0 if rng.random() < 0.7 else f[6]
+            k = rng.choice([0, 1, 59, 60, 3600, 86399, 86400, rng.randrange(100000)])
+            g = oracle_fields(oracle_ms(f) + 1000 * k)
+            c1 = rng.choice([1, 2])
+            ops = [["new", f, rng.choice([0, zones[0]]), c1], ["rt", 0], ["cmp", 0, 1], ["cmp", 1, 0], ["new", list(f), 0, rng.choice([0, 0, 1, 2])], ["cmp", 0, 2],
+                   ["add", 0, "sec", fbits(float(k)), rng.random() < 0.5], ["new", g, 0, rng.choice([0, 1, 2])], ["cmp", 3, 4], ["cmp", 4, 3], ["copy", 0], ["cmp", 5, 2]]
         lay = prog_layout(ops)
         n = sum(c for _, c in lay) if lay else 0
         track = 0
         for op in ops:
             if op[0] == "trk":
                 track = len(op[1])
-        for _ in range(rng.randrange(2, 9) if t < 6 else rng.randrange(4, 13)):
+        for _ in range(rng.randrange(2, 9) if t < 7 else rng.randrange(4, 13)):
             c = rng.randrange(20)
             i = rng.randrange(n) if n else 0
             j = rng.randrange(n) if n else 0
@@ -389,6 +458,8 @@ class P(Prop):
                 ops.append(["conv", i, rng.choice(zones + [0])]); n += 1
             elif c == 7:
                 ops.append([rng.choice(["copy", "rt"]), i]); n += 1
+                if rng.random() < 0.5:
+                    ops.append(["cmp"] + rng.choice([[i, n - 1], [n - 1, i]]))
             elif c in (8, 9, 10):
                 ops += self.rand_set(rng, i)
             elif c == 11:
@@ -551,13 +622,36 @@ class P(Prop):
             f = self.rand_stamp(rng)
             f[6] = 0
             out.append({"kind": "ctor", "f": f})
+        # what stands on the other side of a comparison operator: a timestamp of any class (ObsTime, classes derived from it),
+        # or an object that is not a timestamp at all (== False, != True, the order operators raise AttributeError: model
+        # `Model/ObsTimeOperand.lean`, correspondence only - the statement speaks about timestamps)
+        for _ in range(600 if quick else 10000):
+            a = self.rand_stamp(rng)
+            ca = rng.choice([0, 1, 2])
+            if rng.random() < 0.6:
+                b = rng.choice([list(a), self.neighbour(a, rng), self.rand_stamp(rng)])
+                out.append({"kind": "eqx", "a": a, "ca": ca, "b": b, "cb": rng.choice([0, 1, 2])})
+            else:
+                out.append({"kind": "eqx", "a": a, "ca": ca, "other": rng.choice(self.OTHERS)})
         # a third of the stamps built from fields carry a zone label: no sentence of the property depends on it
         nz = {"day": 1, "cmp": 2, "add": 1, "addf": 1}
         for c in out:
             n = len(c["fs"]) if c["kind"] == "seq" else nz.get(c["kind"])
             if n and rng.random() < 0.34:
                 c["z"] = [self.rand_zone(rng) for _ in range(n)]
+            if n and rng.random() < (0.5 if c["kind"] == "cmp" else 0.2):
+                c["c"] = [rng.choice([0, 1, 2]) for _ in range(n)]
+                if not any(c["c"]):
+                    c["c"][rng.randrange(n)] = rng.choice([1, 2])
         return out
+
+    OTHERS = ["none", "int", "float", "str", "tuple", "list", "object", "fields_dict"]
+
+    def other_operand(self, name, t):
+        """an object that is not a timestamp but could be mistaken for the stamp `t`"""
+        f = self.fields(t)
+        return {"none": None, "int": int(t.toAbsTime()), "float": t.toAbsTime(), "str": "%02d/%02d/%04d %02d:%02d:%02d" % (f[2], f[1], f[0], f[3], f[4], f[5]),
+                "tuple": tuple(f), "list": list(f), "object": object(), "fields_dict": dict(zip(ATTRS, f))}[name]
 
     def search_cases(self, rng):
         # the quick generator with another seed is enough for the failing-input search (thorough is 20x larger)
@@ -586,6 +680,7 @@ class P(Prop):
         t = {"kind": case["kind"]}
         if case["kind"] in ("day", "cmp", "add", "addf", "seq"):
             t["zone_label"] = any(case.get("z") or [])
+            t["derived_class"] = any(case.get("c") or [])
         if case["kind"] == "day":
             f = case["f"]
             t["daytype"] = ("jan1" if f[1:3] == [1, 1] else "dec31" if f[1:3] == [12, 31] else
@@ -593,6 +688,8 @@ class P(Prop):
             t["leap"] = leap(f[0])
         if case["kind"] in ("add", "addf"):
             t["unit"] = case["unit"]
+        if case["kind"] == "eqx":
+            t["operand"] = "timestamp, classes %s/%s" % (["ObsTime", "derived", "derived"][case["ca"]], ["ObsTime", "derived", "derived"][case["cb"]]) if "b" in case else "not a timestamp"
         if case["kind"] == "rdf":
             t["float_class"] = case.get("cls", "?")
         if case["kind"] == "prog":
@@ -600,6 +697,7 @@ class P(Prop):
             t["prog_zoned"] = any((op[0] == "new" and op[2] != 0) or op[0] in ("conv", "tset", "tconv") or (op[0] == "set" and op[2] == 7) for op in case["ops"])
             t["prog_modifies_a_result"] = "set" in names or "tset" in names
             t["prog_track"] = "trk" in names
+            t["prog_derived_class"] = any(op[0] == "new" and len(op) > 3 and op[3] != 0 for op in case["ops"])
         if case["kind"] == "addf":
             nb = bitsf(case["nb"])
             t["amount"] = ("int " if case.get("int") else "") + ("negative" if nb < 0 else "non-negative") + ("" if nb == int(nb) else " fractional")
@@ -609,11 +707,18 @@ class P(Prop):
         return case.get("f") != [1970, 1, 1, 0, 0, 0, 0]
 
     # ---------------------------------------------------------------- implementation
-    def mk(self, f, z=0):
-        """ObsTime(fields) — with the `zone` argument when the case labels the stamp with a zone (key "z")"""
+    def mk(self, f, z=0, c=0):
+        """ObsTime(fields) — with the `zone` argument when the case labels the stamp with a zone (key "z"), as an instance
+        of a class derived from ObsTime when the case says so (key "c": index into self.CLASSES)"""
+        T = self.CLASSES[c]
         if z:
-            return self.T(f[0], f[1], f[2], f[3], f[4], f[5], f[6], zone=z)
-        return self.T(f[0], f[1], f[2], f[3], f[4], f[5], f[6])
+            return T(f[0], f[1], f[2], f[3], f[4], f[5], f[6], zone=z)
+        return T(f[0], f[1], f[2], f[3], f[4], f[5], f[6])
+
+    @staticmethod
+    def classes_of(case, n):
+        c = case.get("c") or [0] * n
+        return list(c) + [0] * (n - len(c))
 
     @staticmethod
     def zones_of(case, n):
@@ -654,110 +759,127 @@ class P(Prop):
             x = bitsf(bits)
             return int(x) if as_int else x
         try:
-            for op in ops:
-                k = op[0]
-                if k == "new":
-                    f = op[1]
-                    pre.append([])
-                    store.append(T(f[0], f[1], f[2], f[3], f[4], f[5], f[6], zone=op[2]) if op[2] != 0 else self.mk(f))
-                    outs.append(self.snap_abs(store[-1]))
-                elif k == "read":
-                    x = bitsf(op[1])
-                    if op[2] == "i":
-                        x = int(x)
-                    elif op[2] == "np":
-                        import numpy
-                        x = numpy.float64(x)
-                    elif op[2] == "ni":
-                        import numpy
-                        x = numpy.int64(int(x))
-                    pre.append([])
-                    store.append(T.readUnixTime(x))
-                    outs.append(self.snap_abs(store[-1]))
-                elif k == "add":
-                    o = store[op[1]]
-                    pre.append([self.snap(o)])
-                    store.append({"sec": o.addSec, "min": o.addMin, "hour": o.addHour, "day": o.addDay}[op[2]](arg(op[3], op[4])))
-                    outs.append(self.snap_abs(store[-1]))
-                elif k == "conv":
-                    o = store[op[1]]
-                    pre.append([self.snap(o)])
-                    store.append(o.convertToZone(op[2]))
-                    outs.append(self.snap_abs(store[-1]))
-                elif k == "copy":
-                    o = store[op[1]]
-                    pre.append([self.snap(o)])
-                    store.append(o.copy())
-                    outs.append(self.snap_abs(store[-1]))
-                elif k == "rt":
-                    o = store[op[1]]
-                    pre.append([self.snap(o)])
-                    a = o.toAbsTime()
-                    store.append(T.readUnixTime(a))
-                    outs.append(dict(self.snap_abs(store[-1]), a=fbits(a)))
-                elif k == "set":
-                    o = store[op[1]]
-                    pre.append([self.snap(o)])
-                    assign(o, ATTRS[op[2]], op[3])
-                    outs.append("u")
-                elif k == "abs":
-                    o = store[op[1]]
-                    pre.append([self.snap(o)])
-                    outs.append({"x": fbits(o.toAbsTime())})
-                elif k == "cmp":
-                    a, b = store[op[1]], store[op[2]]
-                    pre.append([self.snap(a), self.snap(b)])
-                    outs.append({"f": [int(a < b), int(a > b), int(a == b), int(a <= b), int(a >= b), int(a != b)],
-                                 "x": [fbits(a.toAbsTime()), fbits(b.toAbsTime())]})
-                elif k == "sub":
-                    a, b = store[op[1]], store[op[2]]
-                    pre.append([self.snap(a), self.snap(b)])
-                    outs.append({"x": fbits(a - b)})
-                elif k == "pz":
-                    o = store[op[1]]
-                    pre.append([self.snap(o)])
-                    outs.append({"s": o.printZone()})
-                elif k == "tz":
-                    o = store[op[1]]
-                    pre.append([self.snap(o)])
-                    before = T.getPrintFormat()
-                    r = o.timeWithZone()
-                    outs.append({"s": r + ("" if T.getPrintFormat() == before else " [print format left as %r]" % T.getPrintFormat())})
-                    T.setPrintFormat(before)
-                elif k == "dow":
-                    o = store[op[1]]
-                    pre.append([self.snap(o)])
-                    outs.append({"s": o.getDayOfWeek()})
-                elif k == "trk":
-                    pre.append([])
-                    track = self.Track([self.Obs(self.ENU(float(n), 0.0, 0.0), store[i]) for n, i in enumerate(op[1])])
-                    outs.append("u")
-                elif k == "tget":
-                    pre.append([self.snap(o.timestamp) for o in track])
-                    outs.append({"i": track.getTimeZone()})
-                elif k == "tset":
-                    pre.append([self.snap(o.timestamp) for o in track])
-                    for o in track:
-                        undo.append((o.timestamp, "zone", o.timestamp.zone))
-                    track.setTimeZone(op[1])
-                    outs.append("u")
-                elif k in ("tconv", "tadd"):
-                    pre.append([self.snap(o.timestamp) for o in track])
-                    if k == "tconv":
-                        track.convertToTimeZone(op[1])
+            stopped = None
+            for n_op, op in enumerate(ops):
+                try:
+                    k = op[0]
+                    if k == "new":
+                        f = op[1]
+                        pre.append([])
+                        store.append(self.mk(f, op[2], op[3] if len(op) > 3 else 0))
+                        outs.append(self.snap_abs(store[-1]))
+                    elif k == "read":
+                        x = bitsf(op[1])
+                        if op[2] == "i":
+                            x = int(x)
+                        elif op[2] == "np":
+                            import numpy
+                            x = numpy.float64(x)
+                        elif op[2] == "ni":
+                            import numpy
+                            x = numpy.int64(int(x))
+                        pre.append([])
+                        store.append(T.readUnixTime(x))
+                        outs.append(self.snap_abs(store[-1]))
+                    elif k == "add":
+                        o = store[op[1]]
+                        pre.append([self.snap(o)])
+                        store.append({"sec": o.addSec, "min": o.addMin, "hour": o.addHour, "day": o.addDay}[op[2]](arg(op[3], op[4])))
+                        outs.append(self.snap_abs(store[-1]))
+                    elif k == "conv":
+                        o = store[op[1]]
+                        pre.append([self.snap(o)])
+                        store.append(o.convertToZone(op[2]))
+                        outs.append(self.snap_abs(store[-1]))
+                    elif k == "copy":
+                        o = store[op[1]]
+                        pre.append([self.snap(o)])
+                        store.append(o.copy())
+                        outs.append(self.snap_abs(store[-1]))
+                    elif k == "rt":
+                        o = store[op[1]]
+                        pre.append([self.snap(o)])
+                        a = o.toAbsTime()
+                        store.append(T.readUnixTime(a))
+                        outs.append(dict(self.snap_abs(store[-1]), a=fbits(a)))
+                    elif k == "set":
+                        o = store[op[1]]
+                        pre.append([self.snap(o)])
+                        assign(o, ATTRS[op[2]], op[3])
+                        outs.append("u")
+                    elif k == "abs":
+                        o = store[op[1]]
+                        pre.append([self.snap(o)])
+                        outs.append({"x": fbits(o.toAbsTime())})
+                    elif k == "cmp":
+                        a, b = store[op[1]], store[op[2]]
+                        pre.append([self.snap(a), self.snap(b)])
+                        outs.append({"f": [int(a < b), int(a > b), int(a == b), int(a <= b), int(a >= b), int(a != b)],
+                                     "x": [fbits(a.toAbsTime()), fbits(b.toAbsTime())]})
+                    elif k == "sub":
+                        a, b = store[op[1]], store[op[2]]
+                        pre.append([self.snap(a), self.snap(b)])
+                        outs.append({"x": fbits(a - b)})
+                    elif k == "pz":
+                        o = store[op[1]]
+                        pre.append([self.snap(o)])
+                        outs.append({"s": o.printZone()})
+                    elif k == "tz":
+                        o = store[op[1]]
+                        pre.append([self.snap(o)])
+                        before = T.getPrintFormat()
+                        r = o.timeWithZone()
+                        outs.append({"s": r + ("" if T.getPrintFormat() == before else " [print format left as %r]" % T.getPrintFormat())})
+                        T.setPrintFormat(before)
+                    elif k == "dow":
+                        o = store[op[1]]
+                        pre.append([self.snap(o)])
+                        outs.append({"s": o.getDayOfWeek()})
+                    elif k == "trk":
+                        pre.append([])
+                        track = self.Track([self.Obs(self.ENU(float(n), 0.0, 0.0), store[i]) for n, i in enumerate(op[1])])
+                        outs.append("u")
+                    elif k == "tget":
+                        pre.append([self.snap(o.timestamp) for o in track])
+                        outs.append({"i": track.getTimeZone()})
+                    elif k == "tset":
+                        pre.append([self.snap(o.timestamp) for o in track])
+                        for o in track:
+                            undo.append((o.timestamp, "zone", o.timestamp.zone))
+                        track.setTimeZone(op[1])
+                        outs.append("u")
+                    elif k in ("tconv", "tadd"):
+                        pre.append([self.snap(o.timestamp) for o in track])
+                        if k == "tconv":
+                            track.convertToTimeZone(op[1])
+                        else:
+                            track.addSeconds(arg(op[1], op[2]))
+                        new = [o.timestamp for o in track]
+                        store += new
+                        outs.append({"l": [self.snap_abs(t) for t in new]})
                     else:
-                        track.addSeconds(arg(op[1], op[2]))
-                    new = [o.timestamp for o in track]
-                    store += new
-                    outs.append({"l": [self.snap_abs(t) for t in new]})
-                else:
-                    raise ValueError(k)
+                        raise ValueError(k)
+                except BaseException as e:
+                    if isinstance(e, KeyboardInterrupt):
+                        raise
+                    # a statement that raises ends the program there: what it raised is its output (the oracle judges it
+                    # only if the statement is one the property speaks about, on operands inside its domain)
+                    from engine import err_kind
+                    del pre[n_op + 1:], outs[n_op:]
+                    pre += [[]] * (n_op + 1 - len(pre))
+                    outs.append({"err": err_kind(e), "detail": str(e)[:200]})
+                    stopped = n_op
+                    break
+
             alias = [min(j for j in range(len(store)) if store[j] is store[i]) for i in range(len(store))]
             trk = []
             if track is not None:
                 for o in track:
                     trk.append(next((j for j in range(len(store)) if store[j] is o.timestamp), -1))
-            return {"outs": outs, "pre": pre, "store": [self.snap(o) for o in store], "alias": alias, "track": trk}
+            r = {"outs": outs, "pre": pre, "store": [self.snap(o) for o in store], "alias": alias, "track": trk}
+            if stopped is not None:
+                r["stopped"] = stopped
+            return r
         finally:
             for o, attr, old in reversed(undo):
                 setattr(o, attr, old)
@@ -767,7 +889,7 @@ class P(Prop):
         if k == "prog":
             return self.run_prog(case["ops"])
         if k == "day":
-            t = self.mk(case["f"], self.zones_of(case, 1)[0])
+            t = self.mk(case["f"], self.zones_of(case, 1)[0], self.classes_of(case, 1)[0])
             a = t.toAbsTime()
             back = self.T.readUnixTime(a)
             return {"abs_ms": round(a * 1000), "back": self.fields(back), "abs": fbits(a), "back_abs": fbits(back.toAbsTime())}
@@ -782,28 +904,49 @@ class P(Prop):
             # whatever the calls of earlier cases left behind is overwritten as far as a call can do it
             self.T.readUnixTime(self.mk([1970, 1, 1, 0, 0, 0, 0]).toAbsTime())
             rows = []
-            for f, z in zip(case["fs"], self.zones_of(case, len(case["fs"]))):
-                a = self.mk(f, z).toAbsTime()
+            for f, z, c in zip(case["fs"], self.zones_of(case, len(case["fs"])), self.classes_of(case, len(case["fs"]))):
+                a = self.mk(f, z, c).toAbsTime()
                 rows.append({"abs": fbits(a), "back": self.fa(self.T.readUnixTime(a))})
             return {"rows": rows}
         if k == "cmp":
             za, zb = self.zones_of(case, 2)
-            a, b = self.mk(case["a"], za), self.mk(case["b"], zb)
+            ca, cb = self.classes_of(case, 2)
+            a, b = self.mk(case["a"], za, ca), self.mk(case["b"], zb, cb)
             return {"ops": [int(a < b), int(a > b), int(a == b), int(a <= b), int(a >= b), int(a != b)], "sub": fbits(a - b)}
         if k == "add":
-            a = self.mk(case["a"], self.zones_of(case, 1)[0])
+            a = self.mk(case["a"], self.zones_of(case, 1)[0], self.classes_of(case, 1)[0])
             r = {"sec": a.addSec, "min": a.addMin, "hour": a.addHour, "day": a.addDay}[case["unit"]](case["nb"])
             return {"res": self.fields(r), "abs": fbits(r.toAbsTime())}
         if k == "rdf":
-            return {"rows": [self.fa(self.T.readUnixTime(bitsf(x))) for x in case["x"]]}
+            rows = []
+            for x in case["x"]:
+                try:
+                    rows.append(self.fa(self.T.readUnixTime(bitsf(x))))
+                except Exception as e:   # row by row: a negative argument (outside the property) must not hide the other rows
+                    from engine import err_kind
+                    rows.append({"err": err_kind(e)})
+            return {"rows": rows}
         if k == "cmpf":
             a, b = self.T.readUnixTime(bitsf(case["x"])), self.T.readUnixTime(bitsf(case["y"]))
             return {"a": self.fa(a), "b": self.fa(b),
                     "ops": [int(a < b), int(a > b), int(a == b), int(a <= b), int(a >= b), int(a != b)], "sub": fbits(a - b)}
         if k == "addf":
-            a = self.mk(case["a"], self.zones_of(case, 1)[0])
+            a = self.mk(case["a"], self.zones_of(case, 1)[0], self.classes_of(case, 1)[0])
             r = {"sec": a.addSec, "min": a.addMin, "hour": a.addHour, "day": a.addDay}[case["unit"]](self.amount(case))
             return {"res": self.fa(r), "self": self.fields(a)}
+        if k == "eqx":
+            a = self.mk(case["a"], 0, case["ca"])
+            x = self.mk(case["b"], 0, case["cb"]) if "b" in case else self.other_operand(case["other"], a)
+            res = []
+            for f in (lambda: a < x, lambda: a > x, lambda: a == x, lambda: a <= x, lambda: a >= x, lambda: a != x, lambda: x == a, lambda: x != a):
+                try:
+                    r = f()
+                    res.append(int(r) if isinstance(r, bool) else repr(r))
+                except AttributeError:
+                    res.append("attr")
+                except Exception as e:
+                    res.append("exc:" + type(e).__name__)
+            return {"ops": res}
         if k == "ctor":
             T = self.T
             pf, rf = T.getPrintFormat(), T.getReadFormat()
@@ -910,6 +1053,9 @@ class P(Prop):
             return ["C03.readf %s" % case["x"], "C03.readf %s" % case["y"], "C03.cmpf %s %s" % (case["x"], case["y"])]
         if k == "addf":
             return ["C03.addf " + " ".join(map(str, case["a"])) + " %s %s" % (case["unit"], case["nb"])]
+        if k == "eqx":
+            return ["C03.cmpo %s %d %s" % (" ".join(map(str, case["a"])), case["ca"],
+                                          "inst %d %s" % (case["cb"], " ".join(map(str, case["b"]))) if "b" in case else "other")]
         if k == "ctor":
             return ["C13.time %s %s %s" % (hexs(DEFAULT_FMT), hexs(DEFAULT_FMT), " ".join(map(str, case["f"]))), "C03.default",
                     "C03.absf " + " ".join(map(str, case["f"])), "C03.absf 1970 1 1 0 0 0 0"]
@@ -949,6 +1095,10 @@ class P(Prop):
             return {"a": self.dfa(replies[0]), "b": self.dfa(replies[1]), "ops": list(map(int, p[:6])), "sub": p[6]}
         if k == "addf":
             return {"res": self.dfa(replies[0]), "self": case["a"]}
+        if k == "eqx":
+            if replies[0] == "bad-request":
+                return {"err": replies[0]}
+            return {"ops": [int(x) if x in ("0", "1") else x for x in replies[0].split()]}
         if k == "ctor":
             p = replies[0].split()
             back = list(map(int, p[1].split(",")))
@@ -1005,7 +1155,7 @@ class P(Prop):
         """the seconds value of a well-formed stamp agrees with the proleptic Gregorian calendar (to the resolution of a double)"""
         a = bitsf(abs_bits)
         want = Fraction(oracle_ms(f), 1000)
-        if abs(Fraction(a) - want) > 2 * math.ulp(max(1.0, float(want))):
+        if abs(Fraction(a) - want) > 2 * math.ulp(max(1.0, abs(float(want)))):
             return "toAbsTime() of %s %s = %r, proleptic Gregorian calendar says %s" % (what, f, a, float(want))
         return None
 
@@ -1042,18 +1192,60 @@ class P(Prop):
             return "%s gives %s, expected %s" % (what, got, oracle_fields(int(want * 1000)))
         return self.check_abs(got, res["abs"], "the result of %s," % what)
 
+    def stmt_in_domain(self, op, pre):
+        """is this statement of a program a conversion, comparison or offset the property speaks about, applied to operands
+        inside its domain (well formed, not before 1970) and - offsets, readUnixTime - asked for an instant not before 1970?"""
+        k = op[0]
+        wf = [in_domain(q[:7]) for q in pre]
+        at = lambda q: Fraction(oracle_ms(q[:7]), 1000)
+        try:
+            if k == "new":
+                return in_domain(op[1])
+            if k == "read":
+                x = bitsf(op[1])
+                return math.isfinite(x) and x >= 0
+            if k in ("rt", "abs"):
+                return wf[0]
+            if k in ("cmp", "sub"):
+                return all(wf)
+            if k == "add":
+                return wf[0] and math.isfinite(bitsf(op[3])) and at(pre[0]) + Fraction(bitsf(op[3])) * self.MULT[op[2]] >= 0
+            if k == "tadd":
+                return bool(pre) and all(wf) and math.isfinite(bitsf(op[1])) and all(at(q) + Fraction(bitsf(op[1])) >= 0 for q in pre)
+            if k in ("conv", "tconv"):
+                # as for the results (see spec_prog): what comes back is a calendar stamp read from a number of seconds
+                z = op[2] if k == "conv" else op[1]
+                return bool(pre) and all(wf) and all(at(q) + 3600 * (z - q[7]) >= 0 for q in pre)
+        except (IndexError, ValueError, OverflowError):
+            return False
+        # copy, printZone, timeWithZone, getDayOfWeek, attribute assignments and the Track plumbing of the harness: nothing the property says can be failed by raising there
+        return False
+
     def spec_prog(self, case, out):
         """Every statement of a program is judged on its own, with the state its operands had when it was executed:
         what the statement says about conversions, comparisons and offsets does not depend on what was done before
         with other objects (or with earlier results), nor on the `zone` label of a stamp."""
         ops = case["ops"]
         said = lambda i: " (statement %d of %s)" % (i, json_short(ops))
+        cl = prog_classes(ops)
+
+        def who(op):
+            """the classes of the two operands of a comparison, when one of them is not plain ObsTime"""
+            if cl[op[1]] == 0 and cl[op[2]] == 0:
+                return ""
+            return "; the first is an instance of %s, the second of %s" % (CLASS_NAMES[cl[op[1]]], CLASS_NAMES[cl[op[2]]])
         for i, (op, o, pre) in enumerate(zip(ops, out["outs"], out["pre"])):
             k = op[0]
-            wf = [wellformed(q[:7]) for q in pre]
+            wf = [in_domain(q[:7]) for q in pre]
             m = None
+            if isinstance(o, dict) and "err" in o:
+                # the statement raised (the program stopped there): a failure of the property only if the statement is one the
+                # property speaks about and its operands - and the instant it is asked for - are inside the domain
+                if self.stmt_in_domain(op, pre):
+                    return "%s raised %s (%s)" % (op, o["err"], o.get("detail", "")) + said(i)
+                continue
             if k == "new":
-                if wellformed(op[1]):
+                if in_domain(op[1]):
                     if o["o"][:7] != op[1]:
                         m = "ObsTime(%s, zone=%s) has fields %s" % (op[1], op[2], o["o"][:7])
                     else:
@@ -1085,14 +1277,14 @@ class P(Prop):
             elif k == "tadd":
                 nb = bitsf(op[1])
                 for q, r in zip(pre, o["l"]):
-                    if wellformed(q[:7]) and not m:
+                    if in_domain(q[:7]) and not m:
                         m = self.check_moved("Track.addSeconds(%r) on the timestamp %s (zone %s)" % (nb, q[:7], q[7]), q, Fraction(nb), r)
             elif k in ("conv", "tconv"):
                 # the statement does not say what a change of zone is; what comes back is a calendar stamp read from a number
                 # of seconds: it must be a well-formed one whose seconds agree with the calendar
                 z = op[2] if k == "conv" else op[1]
                 for q, r in zip(pre, [o] if k == "conv" else o["l"]):
-                    if wellformed(q[:7]) and not m and Fraction(oracle_ms(q[:7]), 1000) + 3600 * (z - q[7]) >= 0:
+                    if in_domain(q[:7]) and not m and Fraction(oracle_ms(q[:7]), 1000) + 3600 * (z - q[7]) >= 0:
                         if not wellformed(r["o"][:7]):
                             m = "convertToZone(%s) on %s (zone %s) gives the malformed date %s" % (z, q[:7], q[7], r["o"][:7])
                         else:
@@ -1107,7 +1299,7 @@ class P(Prop):
                     sa, sb = bitsf(o["x"][0]), bitsf(o["x"][1])
                     if o["f"] != want:
                         m = "comparisons [<,>,==,<=,>=,!=] of %s (zone %s) and %s (zone %s) give %s, epoch order says %s" % (
-                            pre[0][:7], pre[0][7], pre[1][:7], pre[1][7], o["f"], want)
+                            pre[0][:7], pre[0][7], pre[1][:7], pre[1][7], o["f"], want) + who(op)
                     elif o["f"] != self.ops_of(sa, sb):
                         m = "comparisons [<,>,==,<=,>=,!=] of %s (zone %s) and %s (zone %s) give %s, their toAbsTime() values %r, %r say %s" % (
                             pre[0][:7], pre[0][7], pre[1][:7], pre[1][7], o["f"], sa, sb, self.ops_of(sa, sb))
@@ -1125,6 +1317,8 @@ class P(Prop):
         lay = prog_layout(ops)
         created, written, track = {}, {}, []
         for (a, c), op, o in zip(lay, ops, out["outs"]):
+            if isinstance(o, dict) and "err" in o:
+                break
             if op[0] in OBJ_OPS:
                 created[a] = (o["o"], op)
             elif op[0] in ("tconv", "tadd"):
@@ -1146,10 +1340,36 @@ class P(Prop):
                         op, was[:7], was[7], ATTRS[x], now[:7], now[7], json_short(ops))
         return None
 
+    def judged(self, case):
+        """does the case ask for something the property speaks about, on inputs inside its domain? (decided on the INPUT alone,
+        before looking at what the implementation did - raising included)"""
+        k = case["kind"]
+        # operands outside the domain of the statement (malformed, or before 1970) are not judged: the generators never
+        # produce them, a hand-written replay or corpus file may
+        if k in ("day", "cmp", "add", "addf", "ctor") and not all(in_domain(case[x]) for x in ("f", "a", "b") if x in case):
+            return False
+        if k == "addf":   # an offset that leads before 1970: outside the property (correspondence only)
+            return Fraction(oracle_ms(case["a"]), 1000) + Fraction(self.amount(case)) * self.MULT[case["unit"]] >= 0
+        if k == "add":
+            return case["nb"] >= 0
+        if k == "eqx":    # an operand that is not a timestamp: the statement says nothing (correspondence only)
+            return "b" in case and in_domain(case["a"]) and in_domain(case["b"])
+        if k == "cmpf":
+            return bitsf(case["x"]) >= 0 and bitsf(case["y"]) >= 0
+        if k == "rdf":
+            return any(bitsf(x) >= 0 for x in case["x"])
+        if k == "seq":
+            return any(in_domain(f) for f in case["fs"])
+        if k == "secs":
+            return case["start"] >= 0
+        return True
+
     def spec(self, case, out):
+        k = case["kind"]
+        if not self.judged(case):
+            return None
         if "err" in out:
             return "raised %s" % out["err"]
-        k = case["kind"]
         if k == "prog":
             return self.spec_prog(case, out)
         if k == "day":
@@ -1176,6 +1396,8 @@ class P(Prop):
             return None
         if k == "seq":
             for f, row in zip(case["fs"], out["rows"]):
+                if not in_domain(f):
+                    continue
                 m = self.check_abs(f, row["abs"], "")
                 if m:
                     return m + " (after the conversions before it in %s)" % case["fs"]
@@ -1190,7 +1412,9 @@ class P(Prop):
             a, b = oracle_ms(case["a"]), oracle_ms(case["b"])
             want = self.ops_of(a, b)
             if out["ops"] != want:
-                return "comparisons [<,>,==,<=,>=,!=] of %s and %s give %s, epoch order says %s" % (case["a"], case["b"], out["ops"], want)
+                ca, cb = self.classes_of(case, 2)
+                return "comparisons [<,>,==,<=,>=,!=] of %s and %s give %s, epoch order says %s" % (case["a"], case["b"], out["ops"], want) + (
+                    "; the first is an instance of %s, the second of %s" % (CLASS_NAMES[ca], CLASS_NAMES[cb]) if ca or cb else "")
             d = bitsf(out["sub"])
             if abs(Fraction(d) - Fraction(a - b, 1000)) > 4 * math.ulp(max(a, b, 1000) / 1000.0) or self.ops_of(d, 0)[:3] != want[:3]:
                 return "%s - %s = %r, the seconds differ by %s" % (case["a"], case["b"], d, (a - b) / 1000.0)
@@ -1209,6 +1433,8 @@ class P(Prop):
                 x = bitsf(xb)
                 if x < 0:
                     continue   # before 1970: outside the property (correspondence only)
+                if "err" in row:
+                    return "readUnixTime(%r) raised %s" % (x, row["err"])
                 m = self.check_read(x, row)
                 if m:
                     return m
@@ -1253,6 +1479,13 @@ class P(Prop):
             if case["a"][6] == 0 and nb == math.floor(nb) and got != oracle_fields(int(want * 1000)):
                 return "%s gives %s, expected %s" % (what, got, oracle_fields(int(want * 1000)))
             return self.check_abs(got, out["res"]["abs"], "the result")
+        if k == "eqx":
+            a, b = oracle_ms(case["a"]), oracle_ms(case["b"])
+            want = self.ops_of(a, b) + [int(a == b), int(a != b)]
+            if out["ops"] != want:
+                return "comparisons [a<b, a>b, a==b, a<=b, a>=b, a!=b, b==a, b!=a] of a = %s and b = %s give %s, epoch order says %s; a is an instance of %s, b of %s" % (
+                    case["a"], case["b"], out["ops"], want, CLASS_NAMES[case["ca"]], CLASS_NAMES[case["cb"]])
+            return None
         if k == "ctor":
             # The property speaks about conversions and comparisons, not about parsing or defaults: what
             # ObsTime(str)/readTimestamp parse and what ObsTime() is are checked against the model (correspondence).
@@ -1260,12 +1493,12 @@ class P(Prop):
             # calendar, and the copy compares as its seconds do. (Identity of objects and what a later call or assignment
             # does to an earlier result: the `prog` stream.)
             for name, o in (("ObsTime(%r)" % out["str"], out["ctor"]), ("ObsTime()", out["default"])):
-                if wellformed(o["f"]):
+                if in_domain(o["f"]):
                     m = self.check_abs(o["f"], o["abs"], name + " =")
                     if m:
                         return m
             f, c = case["f"], out["copy"]
-            if wellformed(c):
+            if in_domain(c):
                 same = oracle_ms(c) == oracle_ms(f)
                 if out["copy_eq"][:2] != [int(same), int(not same)]:
                     return "t = %s, t.copy() = %s: [==, !=] give %s although their seconds since 1970 are %s" % (
@@ -1277,6 +1510,8 @@ class P(Prop):
         k = case["kind"]
         if any(case.get("z") or []):
             yield {x: v for x, v in case.items() if x != "z"}
+        if any(case.get("c") or []):
+            yield {x: v for x, v in case.items() if x != "c"}
         if k == "prog":
             ops = case["ops"]
             for n in range(len(ops) - 1, 0, -1):          # shorter prefixes
@@ -1287,10 +1522,16 @@ class P(Prop):
                 if r:
                     yield {"kind": "prog", "ops": r}
             for i, op in enumerate(ops):                 # plainer statements
+                if op[0] == "new" and len(op) > 3 and op[3] != 0:
+                    yield {"kind": "prog", "ops": ops[:i] + [op[:3]] + ops[i + 1:]}
                 if op[0] == "new" and op[1][3:] != [0, 0, 0, 0]:
-                    yield {"kind": "prog", "ops": ops[:i] + [["new", op[1][:3] + [0, 0, 0, 0], op[2]]] + ops[i + 1:]}
+                    yield {"kind": "prog", "ops": ops[:i] + [["new", op[1][:3] + [0, 0, 0, 0]] + op[2:]] + ops[i + 1:]}
                 if op[0] == "read" and op[2] != "f":
                     yield {"kind": "prog", "ops": ops[:i] + [["read", op[1], "f"]] + ops[i + 1:]}
+        if k == "eqx" and (case["ca"] or case.get("cb")):
+            yield dict(case, ca=0)
+            if "b" in case:
+                yield dict(case, cb=0)
         if k == "secs" and case["n"] > 1:
             h = case["n"] // 2
             yield {"kind": "secs", "start": case["start"], "n": h}
